@@ -300,6 +300,22 @@ def dtfromOracles (z : TimeZone) (u ns : Int) (rhs : List String) : Verdicts :=
      ("C03.local_date_time_type" ++ tag, zoneExpect z u == .type d.localTimeType)]
   | none => [("C03.answer_shape", false)]
 
+/-- zoned date-time from total nanoseconds: the pair is (floor seconds, remainder) and the type is the
+    zone's type at the floor second -/
+def dtfromtnOracles (z : TimeZone) (n : Int) (rhs : List String) : Verdicts :=
+  if isErr rhs then [] else
+  match rhs.reverse with
+  | tn :: "TN" :: rest =>
+    match dt? rest.reverse, tn.toInt? with
+    | some x, some tnv =>
+      let sec := n / 1000000000
+      [("C16.zoned_from_total_uses_floor_seconds" ++ kfTag z,
+          x.unixTime == sec && x.nanoseconds == n % 1000000000 && zoneExpect z sec == .type x.localTimeType),
+       ("C16.total_roundtrip", tnv == n),
+       ("C14.fields_match_instant", dtInv x)]
+    | _, _ => [("C16.answer_shape", false)]
+  | _ => [("C16.answer_shape", false)]
+
 /-! ### C05 / C06 / C14 / C17 -/
 
 /-- parse `[ n … ] U x E x X x` -/
@@ -440,6 +456,54 @@ def tzfooterOracles (v : Nat) (b : List Nat) (rhs : List String) : Verdicts :=
       | some r => !implOk || String.intercalate " " rhs == showZone { transitions := [], localTimeTypes := [utc], leapSeconds := [], extraRule := r }
       | none => true)]
 
-def resolveOracles (_dirs : List (List Nat)) (_files : List (List Nat × List Nat)) (_tz : List Nat) (_rhs : List String) : Verdicts := []
+/-- C20: which paths must be requested, in order, and what must come out -/
+def resolveExpected (dirs : List (List Nat)) (files : List (List Nat × List Nat)) (tz : List Nat) : List (List Nat) × String :=
+  let fs : List Nat → Option (List Nat) := fun p => (files.find? (·.1 == p)).map (·.2)
+  let decode (b : List Nat) : String := showTz showZone (parseTzFile b)   -- decoding itself is C08's subject
+  if tz.isEmpty then ([], "Err:TzString.Empty") else
+  let localtime : List Nat := "localtime".toList.map Char.toNat
+  let etc : List Nat := "/etc/localtime".toList.map Char.toNat
+  if tz == localtime then
+    ([etc], match fs etc with | some b => decode b | none => "Err:Io")
+  else
+    let forced := tz.head? == some 58
+    let name := if forced then tz.tail else tz
+    let cands : List (List Nat) := if name.head? == some 47 then [name] else dirs.map (fun d => d ++ [47] ++ name)
+    -- up to and including the first readable candidate
+    let rec upTo : List (List Nat) → List (List Nat)
+      | [] => []
+      | p :: ps => if (fs p).isSome then [p] else p :: upTo ps
+    let paths := upTo cands
+    match cands.findSome? fs with
+    | some b => (paths, decode b)
+    | none =>
+      if forced then (paths, "Err:Io")
+      else
+        let text := stripWs tz
+        match tzExpected false text with
+        | none => (paths, "Err")
+        | some r =>
+          let types := match r with
+            | .fixed t => [t]
+            | .alternate a => [a.std, a.dst]
+          (paths, showZone { transitions := [], localTimeTypes := types, leapSeconds := [], extraRule := some r })
+
+def resolveOracles (dirs : List (List Nat)) (files : List (List Nat × List Nat)) (tz : List Nat) (rhs : List String) : Verdicts :=
+  -- rhs: P <n> x.. x.. R <result…>
+  match rhs with
+  | "P" :: n :: rest =>
+    match n.toNat? with
+    | none => [("C20.answer_shape", false)]
+    | some k =>
+      let pathToks := rest.take k
+      match rest.drop k with
+      | "R" :: res =>
+        let (ePaths, eRes) := resolveExpected dirs files tz
+        let result := String.intercalate " " res
+        [("C20.opens_exactly_the_expected_paths_in_order", pathToks == ePaths.map (fun p => "x" ++ hexEncode p)),
+         ("C20.result", if eRes == "Err" then result.startsWith "Err:TzString" || result.startsWith "Err:LocalTimeType" || result.startsWith "Err:TransitionRule"
+                        else result == eRes)]
+      | _ => [("C20.answer_shape", false)]
+  | _ => [("C20.answer_shape", false)]
 
 end TzVerif.Spec
